@@ -77,7 +77,7 @@ class GiveIfcRTL( CalleeIfcRTL ):
                 s._dsl.level, repr( s ), type( s ), other._dsl.level,
                 repr( other ), type( other ) ) )
 
-      m = GetRTL2GiveCL( s.MsgType )
+      m = GetRTL2GiveCL( s.RetType )
 
       if hasattr( parent, "GetRTL2GiveCL_count" ):
         count = parent.GetRTL2GiveCL_count
@@ -162,7 +162,7 @@ class GetRTL2GiveCL( Component ):
     @update
     def up_entry():
       if s.get.en:
-        s.entry = clone_deepcopy( s.get.msg )
+        s.entry = clone_deepcopy( s.get.ret )
 
     s.add_constraints(
       U( up_get_rtl ) < M( s.give     ),
